@@ -410,7 +410,7 @@ def ref_jacobian(disc, f):
     return J, smooth, R
 
 
-def check_nonlinear_steps(mname, spec, flux, rname, bc, perm, res=None):
+def check_nonlinear_steps(mname, spec, flux, rname, bc, perm, res=None, modes=("scalar", "array")):
     """on a nonlinear problem every step of implicit / trapezoidal / gear solves the theta (BDF2) system linearised at the CURRENT state:
     two consecutive steps on one object, Jacobian = derivative of the real space operator there"""
     kind = spec[0]
@@ -440,9 +440,14 @@ def check_nonlinear_steps(mname, spec, flux, rname, bc, perm, res=None):
         if th is None:
             continue
         gear = space.is_multistep(cls)
-        for cfl in (0.8, 5.0):
+        for cfl, mode in [(c, m_) for c in (0.8, 5.0) for m_ in modes]:
             with np.errstate(all="ignore"):
-                dt = cfl * float(np.min(disc.calc_timestep(f0, 1.0)))
+                dtc = cfl * np.asarray(disc.calc_timestep(f0, 1.0), float)
+            # scalar: the global step; array: every cell its own step (what the dtlocal directive hands to step), cell i -> unknowns i*neq..i*neq+neq-1
+            dt = float(np.min(dtc)) if mode == "scalar" else dtc.copy()
+            Dinv = np.eye(dim) / dt if mode == "scalar" else np.diag(np.repeat(1.0 / dtc, neq))
+            if mode == "array" and (not np.all(np.isfinite(dtc)) or np.all(dtc == dtc[0])):
+                continue
             solver = cls(mesh, disc)
             f = f0.copy()
             prev = None
@@ -454,9 +459,9 @@ def check_nonlinear_steps(mname, spec, flux, rname, bc, perm, res=None):
                     break
                 q0 = vec(f)
                 if gear and step == 2:
-                    want = q0 + np.linalg.solve(1.5 / dt * np.eye(dim) - J, R(f) + 0.5 * (q0 - prev) / dt)
+                    want = q0 + np.linalg.solve(1.5 * Dinv - J, R(f) + 0.5 * Dinv @ (q0 - prev))
                 else:
-                    want = q0 + np.linalg.solve(np.eye(dim) / dt - th * J, R(f))
+                    want = q0 + np.linalg.solve(Dinv - th * J, R(f))
                 with np.errstate(all="ignore"):
                     solver.step(f, dt)
                 got = vec(f)
@@ -470,8 +475,8 @@ def check_nonlinear_steps(mname, spec, flux, rname, bc, perm, res=None):
                     res.worst("nonlinear-step-increment/relative", err)
                 # forward-difference Jacobian (error ~1e-8 x curvature) amplified by dt: measured <= 1.2e-5 over the whole space; tolerance 1e-4 (1+CFL)
                 if not err <= 1e-4 * (1 + cfl):
-                    out.append(("C06/nonlinear/%s/step%d" % (iname, step), "%s %s %s %s bc %s letters %r cfl %g: the increment of step %d differs by %.3g (relative) from the %s system "
-                                "linearised at the current state" % (iname, mname, flux, rname, bc, perm, cfl, step, err, "BDF2" if (gear and step == 2) else "theta=%g" % th)))
+                    out.append(("C06/nonlinear/%s/%sstep%d" % (iname, "dt-array/" if mode == "array" else "", step), "%s %s %s %s bc %s letters %r cfl %g (%s dt): the increment of step %d differs by %.3g (relative) from the %s system "
+                                "linearised at the current state" % (iname, mname, flux, rname, bc, perm, cfl, mode, step, err, "BDF2" if (gear and step == 2) else "theta=%g" % th)))
                     break
                 prev = q0
     return out
